@@ -115,3 +115,53 @@ fn c18_lorawan_radio_rx_single() { adapter_rx(true) }
 #[kani::proof]
 #[kani::unwind(18)]
 fn c18_lorawan_radio_rx_continuous() { adapter_rx(false) }
+
+// ================================================================================================ C17/C09/C10: the adapter programmes what the MAC asked for
+// LorawanRadio::{tx, setup_rx} over LoRa over the abstract chip: the TxConfig / RxConfig the LoRaWAN stack computed (C09: channel
+// frequency, data rate, power; C10: window frequency, data rate, mode) is what reaches the chip driver, from any driver/chip state.
+// @verif props=C17,C09 obligation=LorawanRadio::tx.programmes_tx_config label=bounded(3-polls) tier=quick bound="any consistent (driver, abstract chip) state, every SF x BW, any frequency and power, 3-byte frame, one fault at any command position, at most 2 inconclusive IRQ polls; sequential executions (Y1)"
+#[kani::proof]
+#[kani::unwind(20)]
+fn c17_lorawan_radio_tx() {
+    tape::init();
+    let l = any_lora();
+    let mut r: LorawanRadio<crate::verif_lora::Chip, crate::verif_phy::MockDelay, 14> = LorawanRadio::from(l);
+    let (sf, bw) = (SFS[tape::below(8)], BWS[tape::below(10)]);
+    let cfg = TxConfig { pw: tape::i8(), rf: lorawan_device::async_device::radio::RfConfig { frequency: tape::u32(), bb: BaseBandModulationParams::new(sf, bw, CodingRate::_4_5), max_payload_len: 255 } };
+    let data = [7u8, 8, 9];
+    let res = r.tx(cfg, &data);
+    let c = &r.lora.radio_kind;
+    if res.is_ok() {
+        assert!(c.started_freq == cfg.rf.frequency && c.freq == cfg.rf.frequency, "C09/C17 the uplink goes out on the frequency of the TxConfig");
+        assert!(c.power == cfg.pw as i32, "C09/C17 with the power of the TxConfig");
+        assert!(c.mod_sf == Some(sf) && c.mod_bw == Some(bw) && c.mod_freq == cfg.rf.frequency, "C09 with the spreading factor and bandwidth of the TxConfig");
+        assert!(c.payload_len == 3 && c.pkt_len == 3, "the whole frame, and nothing else, is transmitted");
+    }
+    kani::cover!(res.is_ok(), "verif-reached: transmitted");
+    kani::cover!(res.is_err(), "verif-reached: radio error surfaces");
+}
+// @verif props=C17,C10 obligation=LorawanRadio::setup_rx.programmes_rx_config label=proved-complete tier=quick bound="any consistent (driver, abstract chip) state, every SF x BW, any frequency, continuous / single with margin 0..1000 ms, one fault at any command position; sequential executions (Y1)"
+#[kani::proof]
+#[kani::unwind(20)]
+fn c17_lorawan_radio_setup_rx() {
+    tape::init();
+    let l = any_lora();
+    let mut r: LorawanRadio<crate::verif_lora::Chip, crate::verif_phy::MockDelay, 14> = LorawanRadio::from(l);
+    let (sf, bw) = (SFS[tape::below(8)], BWS[tape::below(10)]);
+    let bb = BaseBandModulationParams::new(sf, bw, CodingRate::_4_5);
+    let single = tape::boolean();
+    let ms = tape::u32();
+    kani::assume(ms <= 1000);
+    let mode = if single { LorawanRxMode::Single { ms } } else { LorawanRxMode::Continuous };
+    let cfg = RxConfig { rf: lorawan_device::async_device::radio::RfConfig { frequency: tape::u32(), bb, max_payload_len: 255 }, mode };
+    let res = r.setup_rx(cfg);
+    if res.is_ok() {
+        let c = &r.lora.radio_kind;
+        assert!(c.freq == cfg.rf.frequency && c.mod_sf == Some(sf) && c.mod_bw == Some(bw) && c.mod_freq == cfg.rf.frequency, "C10/C17 the window is programmed with the frequency, spreading factor and bandwidth of the RxConfig");
+        assert!(r.rx_pkt_params.is_some(), "packet parameters remembered for the fetch");
+        assert!(r.lora.radio_mode == RadioMode::Receive(RxMode::from(mode, bb)), "C17 the receive mode in force is the conversion of the requested one (RxMode::from, whose contract is discharged above)");
+        match r.lora.radio_mode { RadioMode::Receive(RxMode::Single(_)) => assert!(single, "single stays single"), RadioMode::Receive(RxMode::Continuous) => assert!(!single, "continuous stays continuous"), _ => assert!(false, "a LoRaWAN window is single or continuous") }
+    }
+    kani::cover!(res.is_ok() && single, "verif-reached: single window programmed");
+    kani::cover!(res.is_ok() && !single, "verif-reached: continuous window programmed");
+}
